@@ -271,6 +271,10 @@ class Interp:
             return self.V.spec_ns[name]
         if self.V.in_contract_expr and name in getattr(self, "ghost", {}):
             return self.ghost[name]
+        if self.V.in_contract_expr and name == "trace":
+            for fr in reversed(self.frames):
+                if fr.is_generator:
+                    return self.V.frame_trace(self, fr)
         fr = self.frame
         if self.V.in_contract_expr and name in self.V.contract_globals(fr.qual):
             return self.V.global_value(self, name)
@@ -601,12 +605,12 @@ class Interp:
         return a is b
 
     def py_eq(self, a, b, node=None):
-        if self.user_eq(a) or self.user_eq(b):
-            return self.V.user_cmp(self, "eq", a, b, node)
         if isinstance(a, Obj) and not a.rec and self.V.has_method(a.cls, "__eq__"):
             return self.call_method(a, "__eq__", [b], {}, node)
         if isinstance(b, Obj) and not b.rec and self.V.has_method(b.cls, "__eq__") and not isinstance(a, Obj):
             return self.call_method(b, "__eq__", [a], {}, node)
+        if self.user_eq(a) or self.user_eq(b):
+            return self.V.user_cmp(self, "eq", a, b, node)
         if not is_sym(a) and not is_sym(b) and not isinstance(a, (Obj, Opaque, tuple, PyList)) and not isinstance(b, (Obj, Opaque, tuple, PyList)):
             return a == b
         if isinstance(a, tuple) and isinstance(b, tuple):
@@ -671,7 +675,7 @@ class Interp:
         return SV(z3.ForAll([x], mem(a) == mem(b)), BOOL)
 
     def order(self, op, a, b, node=None):
-        if self.user_eq(a) or self.user_eq(b):
+        if (self.user_eq(a) or self.user_eq(b)) and not isinstance(a, Obj) and not isinstance(b, Obj):
             name = {ast.Lt: "lt", ast.LtE: "le", ast.Gt: "gt", ast.GtE: "ge"}[type(op)]
             return self.V.user_cmp(self, name, a, b, node)
         if isinstance(a, Obj) and isinstance(b, Obj) and not a.rec:
